@@ -152,6 +152,9 @@ def run(st, drv, root, batch):
         subdirs = sorted(set(os.path.dirname(k) for k in disk if b'/' in k.replace(b'sp1/', b'', 1).replace(b'sp2/', b'', 1)))
         mk = ['mkdir ' + enc(d_) for d_ in subdirs]        # names with a directory part live below the search directory too
         decoys = mk + (['mkdir ' + enc(b'sp1/' + n) for n in files if b'/' not in n] if world.placement == 'sp2' else [])      # a directory of the same name in the earlier search directory never matches
+        if world.placement == 'sp1':
+            # a regular file of the same name in a directory added later loses: the first directory in the order added wins
+            decoys += ['mkfile %s %s' % (enc(b'sp2/' + n), enc(b'}}} not this one')) for n in files if b'/' not in n]
         lines = world.setup() + decoys + ['mkfile %s %s' % (enc(n), enc(c)) for n, c in disk.items()]
         lines += ['init A I2 0'] + world.paths() + ['parse_buf A ' + enc(main), 'dump A 0', 'lexstate']
         c = Case(lines)
